@@ -49,7 +49,7 @@ class C03(HistoryProperty):
         "once with a non-empty key set and the restricted dictionary was strictly smaller than the original"
     )
     ASSUMPTIONS = ["dictionaries are JSON with an acyclic template reference graph", "open finding KF-C03-fallback-keys-not-restriction-stable is reported, not failed"]
-    QUICK = {"runs": 3500, "wall": 40}
+    QUICK = {"runs": 5000, "wall": 55}
     THOROUGH = {"runs": 300000, "wall": 480}
     NONTRIVIAL_MEASURE = "history_with_strict_restriction"
     N_XPROC = {"quick": 120, "thorough": 3000}
